@@ -313,6 +313,14 @@ pub fn run(ctx: &Ctx, model: &mut Model, rep: &mut Report) {
             None => rep.resolved_findings.push(json!({"id": f.id, "what": f.what})),
         }
     }
+    for f in known::load(ctx, "C19").into_iter().filter(|f| f.status == "fixed") {
+        rep.evaluations += 1;
+        rep.count("corpus_fixed_witnesses");
+        let r = check_tree(model, &parse_files(&f.witness["files"]), "fixed", 10_000);
+        if let Some(w) = r.fail {
+            rep.fail(json!({"kind": "normalize", "files": f.witness["files"], "what": format!("regression of repaired defect {}: {}", f.id, w)}));
+        }
+    }
     let n = if ctx.thorough { 60 } else { 6 };
     for i in 0..n {
         let mut r = Rng::for_case(ctx.seed ^ 0xC19, i as u64);
